@@ -2,7 +2,7 @@
 
 use super::adtree::*;
 use crate::rng::Rng;
-use crate::sup::{ph, Ctx, PhaseSpec, Prop, Tier};
+use crate::sup::{guarded, ph, Caught, Ctx, PhaseSpec, Prop, Tier};
 use rateslib::dual::{Dual, Gradient1};
 use serde_json::json;
 
@@ -44,7 +44,10 @@ impl Prop for C01 {
         vec![ph("class-forcing", N_FORCED), ph("random-trees", tier.pick(150_000, 10_000_000))]
     }
     fn required_classes(&self, _tier: Tier) -> Vec<String> {
-        required_ad_classes()
+        let mut v = required_ad_classes();
+        v.push("route:Number-with-bare-floats".to_string());
+        v.push("route:Number-with-wrapped-floats".to_string());
+        v
     }
     fn min_evaluations(&self, tier: Tier) -> u64 {
         tier.pick(200_000, 20_000_000)
@@ -94,6 +97,42 @@ impl Prop for C01 {
         }
         let mut obs = vec![];
         let root = eval_real(&e, &leaves, &mut obs);
+        // the same formula through the generic Number container, with bare and with container-wrapped float
+        // operands: bit for bit the result of the concrete type
+        {
+            use rateslib::dual::Number;
+            let nl: Vec<Number> = leaves.iter().map(|l| Number::Dual(l.clone())).collect();
+            for (wrap, label) in [(false, "Number-with-bare-floats"), (true, "Number-with-wrapped-floats")] {
+                ctx.eval(1);
+                ctx.asserted(1);
+                ctx.class(&format!("route:{}", label));
+                match guarded(|| eval_number(&e, &nl, wrap)) {
+                    Caught::Ok(Number::Dual(d)) => {
+                        let same = |a: f64, b: f64| a.to_bits() == b.to_bits() || (a.is_nan() && b.is_nan()) || a == b;
+                        let ok = same(d.real(), root.real()) && match (d.to_rnum(), root.to_rnum()) {
+                            (Ok(x), Ok(y)) => x.names().union(&y.names()).all(|n| same(x.gd(n), y.gd(n))),
+                            _ => false,
+                        };
+                        if !ok {
+                            ctx.violation(&format!("C01|{}-differs", label), json!({"case": describe_case(&e, &specs), "concrete_type_result": root.describe(), "container_result": d.describe()}));
+                            return;
+                        }
+                    }
+                    Caught::Ok(other) => {
+                        ctx.violation(&format!("C01|{}-wrong-kind", label), json!({"case": describe_case(&e, &specs), "returned_kind": match other { Number::F64(_) => "F64", Number::Dual(_) => "Dual", Number::Dual2(_) => "Dual2" }}));
+                        return;
+                    }
+                    Caught::Panic { loc, msg } => {
+                        if crate::sup::is_harness_location(&loc) {
+                            ctx.harness_error(format!("{} {}", loc, msg));
+                        } else {
+                            ctx.violation(&format!("C01|panic|{}|{}", label, crate::sup::short_loc(&loc)), json!({"case": describe_case(&e, &specs), "message": msg}));
+                        }
+                        return;
+                    }
+                }
+            }
+        }
         let names: Vec<String> = POOL.iter().map(|s| s.to_string()).collect();
         let grad = root.gradient1(names.clone());
         ctx.eval(1);
